@@ -29,6 +29,9 @@ type ScopeNode struct {
 	Ctx      string `json:"ctx"` // id of the scope owning the error context
 	Tasks    int    `json:"tasks"`
 	FailOn   string `json:"failon"` // a listener of this scope fails on this event ("" = none)
+	// a listener of this scope fails on event FailSubEv of its DESCENDANT FailSubID (ancestors' listeners run first)
+	FailSubEv string `json:"failsubev"`
+	FailSubID string `json:"failsubid"`
 	sc       app.Scope
 }
 
@@ -67,6 +70,30 @@ func RunCloseScenario(r *rand.Rand, w io.Writer) (events int, hung bool) {
 	}
 	byID := map[string]*ScopeNode{}
 	for _, nd := range nodes {
+		if nd.Parent != "" && r.Intn(6) == 0 {
+			// an ancestor's listener that fails on one of THIS scope's events
+			anc := nd.Parent
+			for r.Intn(2) == 0 {
+				up := ""
+				for _, x := range nodes {
+					if x.ID == anc {
+						up = x.Parent
+					}
+				}
+				if up == "" {
+					break
+				}
+				anc = up
+			}
+			for _, x := range nodes {
+				if x.ID == anc && x.FailSubID == "" {
+					x.FailSubEv = []string{"bclose", "bcommit", "commit", "acommit", "aclose", "brollback", "rollback"}[r.Intn(7)]
+					x.FailSubID = nd.ID
+				}
+			}
+		}
+	}
+	for _, nd := range nodes {
 		nd.Tasks = r.Intn(3)
 		if r.Intn(5) == 0 {
 			nd.FailOn = []string{"bclose", "bcommit", "commit", "aclose", "brollback"}[r.Intn(5)]
@@ -97,7 +124,7 @@ func RunCloseScenario(r *rand.Rand, w io.Writer) (events int, hung bool) {
 						subject = id
 					}
 				}
-				fails := nd.FailOn == name && subject == nd.ID
+				fails := (nd.FailOn == name && subject == nd.ID) || (nd.FailSubEv == name && nd.FailSubEv != "" && subject == nd.FailSubID)
 				lg.emit(map[string]interface{}{"ev": "event", "owner": nd.ID, "name": name, "subject": subject, "fails": fails})
 				if fails {
 					return fmt.Errorf("listener of %s fails on %s", nd.ID, name)
